@@ -35,6 +35,13 @@ def ordJ : Option Ordering → Json
   | some .lt => "lt" | some .eq => "eq" | some .gt => "gt" | none => "TypeError"
 -- --- end T6
 
+-- --- T4 helper
+def excJ4 {α : Type} (f : α → Json) : Except Exc4 α → Json
+  | .ok a => Json.mkObj [("ok", f a)]
+  | .error e => Json.mkObj [("err", Json.str (match e with
+      | .runtime => "runtime" | .value => "value" | .index => "index" | .key => "key" | .type => "type" | .zeroDiv => "zeroDiv"))]
+-- --- end T4
+
 def handle (op : String) (j : Json) : Except String Json := do
   match op with
   | "bin" => pure (strJ (bin (← intOfJson (← field j "n"))))
@@ -119,6 +126,53 @@ def handle (op : String) (j : Json) : Except String Json := do
     | .error e => pure (excJ e)
   | "cmpkeys" => pure (ordJ (cmpKeys (← listOfJson iosOf (← field j "a")) (← listOfJson iosOf (← field j "b"))))
   -- --- end T6
+  -- --- T4: exceptions with their class, abstract numeric values (run at Rat), dicts with numeric values, str helpers
+  | "t4_int" => pure (excJ4 intJ (intOfStr (← strOf (← field j "s"))))
+  | "t4_split" => match ← strOf (← field j "sep") with
+    | [c] => pure (Json.arr (((split1 c (← strOf (← field j "s"))).map strJ).toArray))
+    | _ => throw "one-character separator expected"
+  | "t4_list" =>
+    let xs ← listOfJson intOfJson (← field j "xs"); let i ← intOfJson (← field j "i")
+    pure (Json.mkObj [("index", excJ4 intJ (indexE xs i)), ("max", excJ4 intJ (maxListE xs)), ("lenset", intJ (lenSet xs)),
+                      ("counter", Json.arr ((counterOfList xs).map (fun p => Json.arr #[intJ p.1, intJ p.2])).toArray),
+                      ("rep", intsToJson ((List.replicate (Int.toNat i) xs).flatten)),
+                      ("chars", Json.arr ((strChars ((xs.map (fun x => digitChar x.toNat)))).map strJ).toArray)])
+  | "t4_num" =>
+    let a ← ratOfJson (← field j "a"); let b ← ratOfJson (← field j "b")
+    let m ← intOfJson (← field j "m"); let n ← intOfJson (← field j "n")
+    let xs ← listOfJson ratOfJson (← field j "xs")
+    pure (Json.mkObj [("div", excJ4 ratToJson (divE a b)), ("divint", excJ4 ratToJson (divIntE (ν := Rat) m n)),
+                      ("sum", ratToJson (sumNum xs)), ("add", ratToJson (a + ((m : Int) : Rat))), ("mul", ratToJson (a * b)),
+                      ("sub", ratToJson (a - b)),
+                      ("eq", Json.bool (PyNum.toBEq.beq a b)), ("le", Json.bool (PyNum.le a b)), ("lt", Json.bool (PyNum.lt a b))])
+  | "t4_isclose" => pure (Json.bool (ratIsClose (← ratOfJson (← field j "a")) (← ratOfJson (← field j "b"))))
+  | "t4_dict" =>
+    -- d: [[key, value]…] (int-tuple keys, rational values); ops: [[kind, key, value]…] with "set" (d[k] = v), "mul" (d[k] *= v: KeyError
+    -- aborts), "acc" (d[k] = v + d.get(k, 0)); probes: keys read with d[k] and d.get(k, 5)
+    let ent (o : Json) : Except String (List Int × Rat) := do
+      match (← arrOfJson o) with
+      | [k, v] => pure (← listOfJson intOfJson k, ← ratOfJson v)
+      | _ => throw "bad entry"
+    let d ← listOfJson ent (← field j "d")
+    let ops ← listOfJson (fun o => do
+      match (← arrOfJson o) with
+      | [kind, k, v] => pure (← strOfJson kind, ← listOfJson intOfJson k, ← ratOfJson v)
+      | _ => throw "bad op") (← field j "ops")
+    let probes ← listOfJson (listOfJson intOfJson) (← field j "probes")
+    let r : Except Exc4 (Dict (List Int) Rat) := foldlE (fun (d : Dict (List Int) Rat) o =>
+      if o.1 == "set" then .ok (dictSet d o.2.1 o.2.2)
+      else if o.1 == "mul" then (dictGetE d o.2.1).bind (fun old => .ok (dictSet d o.2.1 (old * o.2.2)))
+      else .ok (dictSet d o.2.1 (o.2.2 + dictGetD d o.2.1 ((0 : Int) : Rat)))) d ops
+    let dJ (d : Dict (List Int) Rat) : Json := Json.arr (d.map (fun p => Json.arr #[intsToJson p.1, ratToJson p.2])).toArray
+    pure (excJ4 (fun d => Json.mkObj [("items", dJ d), ("keys", Json.arr ((dictKeys d).map intsToJson).toArray),
+        ("values", Json.arr ((dictValues d).map ratToJson).toArray),
+        ("tupkeys", Json.num ((dictTupKeys d).length : Nat)),
+        ("gets", Json.arr (probes.map (fun k => excJ4 ratToJson (dictGetE d k))).toArray),
+        ("getds", Json.arr (probes.map (fun k => ratToJson (dictGetD d k 5))).toArray)]) r)
+  | "t4_map" =>
+    -- [int(s) for s in parts]: the first failure aborts
+    pure (excJ4 intsToJson (mapE intOfStr (← listOfJson strOf (← field j "parts"))))
+  -- --- end T4
   | _ => throw s!"unknown prelude op {op}"
 
 end OQ.PY.Driver
